@@ -44,6 +44,9 @@ type Sc struct {
 	Extra string `json:"extra"`
 	// failing environment: ok | kr_err (key ring) | memq_err (membership querier) | rq_err (room querier)
 	Env string `json:"env"`
+	// what R's tables (membership, pending invites, membership of the allowed rooms) hold under every identity other
+	// than the sender ID of the member the request is about: none | ban | invite | join (Handshake!View)
+	Oth string `json:"oth"`
 	// forgery budget of the scenario and whether J retries after a refused attempt (end-to-end runs)
 	FB    int  `json:"fb"`
 	Retry bool `json:"retry"`
@@ -605,14 +608,77 @@ func userIDQuerier(mode string) spec.UserIDForSender {
 	}
 }
 
+// R's tables are keyed by the identity a member has in the room, its sender ID (Handshake.tla, "Who a fact is
+// about"): the facts mem / pending / allow of the scenario are the rows under the sender ID of the member the request
+// is about, sc.Oth is the row under every other key (the member's user ID where that is another string, any other
+// member).  askLog notes the keys the handler asked under, for the disagreement message.
+type askLog struct {
+	mu    sync.Mutex
+	key   string // the member's sender ID in the room
+	user  string // the member's user ID
+	asked []string
+}
+
+func (a *askLog) about(table string, senderID spec.SenderID) bool {
+	if a == nil {
+		return true
+	}
+	a.mu.Lock()
+	defer a.mu.Unlock()
+	cls := "peer"
+	switch string(senderID) {
+	case a.key:
+		cls = "sid"
+	case a.user:
+		cls = "uid"
+	}
+	entry := table + ":" + cls
+	for _, e := range a.asked {
+		if e == entry {
+			return cls == "sid"
+		}
+	}
+	a.asked = append(a.asked, entry)
+	return cls == "sid"
+}
+
+// wrongKeys: the tables that were asked under another key than the member's sender ID.
+func (a *askLog) wrongKeys() []string {
+	if a == nil {
+		return nil
+	}
+	a.mu.Lock()
+	defer a.mu.Unlock()
+	var out []string
+	for _, e := range a.asked {
+		if !strings.HasSuffix(e, ":sid") {
+			out = append(out, e)
+		}
+	}
+	return out
+}
+
+func othMembership(oth string) string {
+	if oth == "none" {
+		return ""
+	}
+	return oth
+}
+
 type membershipQuerier struct {
-	mem  string
+	mem  string // the row under the member's sender ID
+	oth  string // the row under every other key
 	fail bool
+	log  *askLog // nil: a table with one row for everybody (the requesting side's own view)
 }
 
 func (m membershipQuerier) CurrentMembership(ctx context.Context, roomID spec.RoomID, senderID spec.SenderID) (string, error) {
+	mine := m.log.about("membership", senderID)
 	if m.fail {
 		return "", errors.New("c15: membership unavailable")
+	}
+	if !mine {
+		return othMembership(m.oth), nil
 	}
 	if m.mem == "none" {
 		return "", nil
@@ -620,7 +686,10 @@ func (m membershipQuerier) CurrentMembership(ctx context.Context, roomID spec.Ro
 	return m.mem, nil
 }
 
-type restrictedQuerier struct{ w *world }
+type restrictedQuerier struct {
+	w   *world
+	log *askLog
+}
 
 func (q restrictedQuerier) CurrentStateEvent(ctx context.Context, roomID spec.RoomID, eventType string, stateKey string) (gmsl.PDU, error) {
 	w := q.w
@@ -654,17 +723,35 @@ func (q restrictedQuerier) CurrentStateEvent(ctx context.Context, roomID spec.Ro
 }
 
 func (q restrictedQuerier) InvitePending(ctx context.Context, roomID spec.RoomID, senderID spec.SenderID) (bool, error) {
+	mine := q.log.about("pending", senderID)
 	if q.w.sc.QErr == "pending_err" {
 		return false, errors.New("c15: pending invites unavailable")
+	}
+	if !mine {
+		return q.w.sc.Oth == "invite", nil
 	}
 	return q.w.sc.Pending, nil
 }
 
 func (q restrictedQuerier) RestrictedRoomJoinInfo(ctx context.Context, roomID spec.RoomID, senderID spec.SenderID, localServerName spec.ServerName) (*gmsl.RestrictedRoomJoinInfo, error) {
 	w := q.w
+	mine := q.log.about("allowed-room", senderID)
 	for i, cls := range w.sc.Allow {
 		if roomID.String() != allowedRoom(i) {
 			continue
+		}
+		if !mine { // the row of another identity (Handshake!OthAllow)
+			in := w.sc.Oth == "invite" || w.sc.Oth == "join"
+			switch cls {
+			case "nouser":
+				if in {
+					cls = "listed"
+				}
+			case "empty", "listedB", "listed", "listed2":
+				if !in {
+					cls = "nouser"
+				}
+			}
 		}
 		switch cls {
 		case "nonres":
